@@ -55,7 +55,9 @@ def classify(backend, issue):
     """Stable signature for one issue reported by `componentize c13`."""
     kind = issue["kind"]
     name = issue.get("name", "")
-    if backend == "c" and kind == "export-unassigned" and re.search(r"#\[dtor\][a-z0-9]*_[a-z0-9_]*$", name):
+    if backend == "c" and kind == "export-unassigned" and "#[dtor]" in name:
+        # the C backend names the destructor export after the snake_case form of the
+        # resource (`my-thing` -> `my_thing`, `TEST` -> `test`)
         return "c:dtor-export-name:snake-case-resource"
     if kind == "encoder-reject":
         msg = re.sub(r"\(at offset 0x[0-9a-f]+\)", "", issue.get("detail", ""))
